@@ -6,7 +6,7 @@ Each row was added because an independently seeded change that demonstrably brea
 reported by the sibling rule only; the reason says why the rule is a necessary condition of the importing property.
 Only rule prefixes that hold on today's tree are shared (a sibling's known findings stay the sibling's).
 
-property -> [(sibling, rule-id prefix, reason)]
+property -> [(sibling, prefix of `rule-id:instance-key`, reason[, "zero-expected" when the sibling rule records violations only])]
 """
 
 SHARED = {
@@ -21,7 +21,8 @@ SHARED = {
     "C08": [("C39", "R4.", "the range checks see the integer the peer sent only if mpint decoding keeps its sign")],
     "C11": [("C10", "R5.need-rekey-only-when-idle", "a re-key started while a packet is half read loses traffic in flight")],
     "C12": [("C09", "R5.reset-under-strict", "sequence numbers stay aligned across NEWKEYS so that the UNIMPLEMENTED reply names the right packet"),
-            ("C01", "R2.msg-seqno", "the sequence number echoed in UNIMPLEMENTED is the packet's own")],
+            ("C01", "R2.msg-seqno", "the sequence number echoed in UNIMPLEMENTED is the packet's own"),
+            ("C38", "R2.peer-data-operation-guarded:Packetizer.read_message", "reading a packet of an unknown type must not raise: the session would end instead of answering", "zero-expected")],
     "C15": [("C14", "R1.grant-under-success", "the authenticated flag that opens the gate is set only on the success path")],
     "C17": [("C41", "R3.", "the host key is looked up under the name the user connected to"),
             ("C36", "R2.fields-cover-the-encoded-public-numbers", "key equality used to accept the server's key compares every public number")],
